@@ -99,6 +99,10 @@ fn key_bytes(kind: u8, k: u8) -> Vec<u8> {
 		// first two bytes (one index page)
 		2 => {
 			let mut key = vec![0xABu8; 32];
+			// a low page number: an index rebuild collects this page early in its scan and stays
+			// in flight while it walks the rest of the index
+			key[0] = 0;
+			key[1] = 3;
 			key[2] = k.wrapping_mul(37);
 			key[3] = k;
 			key[31] = k;
@@ -128,8 +132,24 @@ fn pipe(mode: Mode) {
 		Mode::Live => rng.gen_range(0..2),
 		Mode::Drop => 0,
 	};
-	let reads_per: usize = rng.gen_range(2..12);
+	// index growth under concurrent reads: one transaction also writes 66 filler keys of the same
+	// index page, so that the page overflows and the log worker rebuilds the index while readers
+	// (which then read for much longer, with pauses) are active
+	let growth = col_kind == 2 && rng.gen_ratio(1, 5);
+	const FILL0: u8 = 100;
+	const NFILL: u8 = 66;
+	let reads_per: usize = if growth { rng.gen_range(20..90) } else { rng.gen_range(2..12) };
 	let sync = rng.gen_bool(0.5);
+	// stalled-thread fault: one thread (a worker, the committer or a reader) is descheduled for a
+	// long time at one of its lock acquisitions
+	loom::stall::clear();
+	if rng.gen_bool(0.5) {
+		let role = rng.gen_range(0..6u32);
+		let at = if rng.gen_bool(0.5) { rng.gen_range(1..60u32) } else { rng.gen_range(1..600u32) };
+		let len = *[30u32, 200, 1000, 4000].get(rng.gen_range(0..4usize)).unwrap();
+		loom::stall::plan(role, at, len);
+		probe("stall_planned");
+	}
 	let mut o = Options::with_columns(std::path::Path::new(&dir), 1);
 	o.columns[0] = ColumnOptions { btree_index: col_kind == 1, uniform: col_kind == 2, ..Default::default() };
 	o.salt = Some(if col_kind == 2 { [0u8; 32] } else { [7u8; 32] });
@@ -158,6 +178,13 @@ fn pipe(mode: Mode) {
 		}
 		plan.push(tx);
 	}
+	if growth {
+		let j = rng.gen_range(0..plan.len());
+		for f in 0..NFILL {
+			plan[j].push((FILL0 + f, 9));
+		}
+		probe("growth_variant");
+	}
 	let big_tx: bool = mode == Mode::Live && rng.gen_ratio(1, 40);
 	// Rarely: fill the commit queue beyond its 16 MiB limit so that the committer is throttled,
 	// then let a worker "fail" (store_err) at a scheduler-chosen moment: the blocked commit call
@@ -173,7 +200,10 @@ fn pipe(mode: Mode) {
 			continue
 		}
 		let d = db.clone();
-		workers.push(Some(thread::spawn(move || d.verif_run_worker(w, min_log))));
+		workers.push(Some(thread::spawn(move || {
+			loom::stall::set_role(w as u32);
+			d.verif_run_worker(w, min_log)
+		})));
 	}
 	let committer = {
 		let db = db.clone();
@@ -181,13 +211,20 @@ fn pipe(mode: Mode) {
 		let hist = hist.clone();
 		let plan = plan.clone();
 		thread::spawn(move || {
+			loom::stall::set_role(4);
 			let mut rng = shuttle::rand::thread_rng();
 			for (i, tx) in plan.iter().enumerate() {
 				let t = (i + 1) as u32;
 				let ops: Vec<(u8, Vec<u8>, Option<Vec<u8>>)> = tx
 					.iter()
 					.map(|(k, len)| {
-						let len = if (big_tx && i == 0) || throttle_then_fail { 9 * 1024 * 1024 } else { *len };
+						let len = if *k >= 100 {
+							9
+						} else if (big_tx && i == 0) || throttle_then_fail {
+							9 * 1024 * 1024
+						} else {
+							*len
+						};
 						(0u8, key_bytes(col_kind, *k), Some(make_value(t, *k, len)))
 					})
 					.collect();
@@ -216,11 +253,18 @@ fn pipe(mode: Mode) {
 		let stamp = stamp.clone();
 		let hist = hist.clone();
 		readers.push(thread::spawn(move || {
+			loom::stall::set_role(5);
 			let mut rng = shuttle::rand::thread_rng();
 			let mut max_seen: u32 = 0;
 			let mut log: Vec<(u64, u64, u8, u32)> = Vec::new();
 			for _ in 0..reads_per {
-				let k: u8 = rng.gen_range(0..nkeys);
+				if growth {
+					// plain switch points (a yield would drop the reader to the lowest PCT priority)
+					for _ in 0..rng.gen_range(0..400) {
+						thread::sleep(std::time::Duration::ZERO);
+					}
+				}
+				let k: u8 = if growth && rng.gen_bool(0.6) { FILL0 + rng.gen_range(0..NFILL) } else { rng.gen_range(0..nkeys) };
 				let key = key_bytes(col_kind, k);
 				let inv = stamp.fetch_add(1, Ordering::SeqCst);
 				let got = db.get(0, &key);
@@ -301,6 +345,9 @@ fn pipe(mode: Mode) {
 	} else if rng.gen_bool(0.5) {
 		thread::yield_now();
 	}
+	if loom::stall::FIRED.swap(0, Ordering::Relaxed) > 0 {
+		probe("stall_fired");
+	}
 	// shutdown at this (scheduler-chosen) moment; join in the order drop_inner does
 	db.verif_shutdown();
 	let order = [2usize, 1, 0, 3];
@@ -333,7 +380,11 @@ fn pipe(mode: Mode) {
 			model.insert(*k, (i + 1) as u32);
 		}
 	}
-	for k in 0..nkeys {
+	let mut all_keys: Vec<u8> = (0..nkeys).collect();
+	if growth {
+		all_keys.extend(FILL0..FILL0 + NFILL);
+	}
+	for k in all_keys {
 		let got = db.get(0, &key_bytes(col_kind, k));
 		let tv = match got {
 			Ok(None) => 0,
